@@ -5,7 +5,7 @@ P=$(realpath "$1"); PROP=$2; TIER=${3:-quick}
 D=$(mktemp -d /var/tmp/mrepo_XXXXXX)
 cp -r /repo/dataflows "$D/"; [ -d /repo/data ] && ln -s /repo/data "$D/data"
 (cd "$D" && patch -p1 -s < "$P") || { echo "PATCH DOES NOT APPLY"; rm -rf "$D"; exit 2; }
-cd /verif
+cd "$(dirname "$0")/.."
 set +e
 VERIF_REPO="$D" ./check "$PROP" --tier "$TIER" 2>&1 | grep -v "conda" | tail -6
 RC=${PIPESTATUS[0]}
